@@ -9,7 +9,7 @@ def shape_both_writes_failed_clears_trust : Bool := true
 def shape_corrupt_tombstones_clear_trust : Bool := true
 def shape_markers_dropped_only_after_tomb_ok : Bool := true
 def shape_missing_clock_starts_at_disappearance : Bool := true
-def shape_prefetch_publish_gated_on_prior : Bool := false
+def shape_prefetch_publish_gated_on_prior : Bool := true
 def shape_tomb_write_before_state_write : Bool := true
 def shape_unreadable_tombstones_clear_trust : Bool := true
 def shape_unreadable_tombstones_use_empty_map : Bool := false
